@@ -94,7 +94,43 @@ def gen(rng, tier):
             arr = raw + val
             h = bytes([ord(e), 1, 0, 1]) + lib.u32(e, 0) + lib.u32(e, 1) + lib.u32(e, len(arr)) + arr
             yield pline(lib.pad(h, 8))
-    # names that are not valid names (accepted at parse time, re-validated by the accessors)
+    # header fields (known and unknown codes) with values of random types, and single-byte mutations of those messages
+    for i in range(400 if tier == "quick" else 20000):
+        ee = rng.choice("lB")
+        t = lib.rand_type(rng)
+        v = lib.rand_value(rng, t)
+        code = rng.choice([0, 1, 2, 5, 8, 9, 10, 77, 255])
+        m = lib.msg_any(ee, 1, 0, 7, [(1, ("o",), b"/a"), (code, t, v), (3, ("s",), b"M")])
+        yield pline(m)
+        if i % 4 == 0:
+            for pos in range(16, len(m)):
+                for f in MUTVALS[:3]:
+                    nv = f(m[pos])
+                    if nv != m[pos]:
+                        yield pline(m[:pos] + bytes([nv]) + m[pos + 1:])
+    # deep nesting around the container depth limits (32 arrays, 32 structures, 64 in total), in an unknown field
+    for n in (28, 29, 30, 31, 32, 33, 34):
+        t = ("y",)
+        for _ in range(n):
+            t = ("a", t)
+        v = 7
+        for _ in range(n):
+            v = [v]
+        yield pline(lib.msg_any("l", 1, 0, 7, [(1, ("o",), b"/a"), (3, ("s",), b"M"), (99, t, v)]))
+        t = ("y",)
+        for _ in range(n):
+            t = ("r", [t])
+        v = 7
+        for _ in range(n):
+            v = [v]
+        yield pline(lib.msg_any("l", 1, 0, 7, [(1, ("o",), b"/a"), (3, ("s",), b"M"), (99, t, v)]))
+    for n in (55, 58, 59, 60, 61, 62, 63, 64, 70):
+        t, v = ("y",), 7
+        for _ in range(n):
+            v = (t, v)
+            t = ("v",)
+        yield pline(lib.msg_any("l", 1, 0, 7, [(1, ("o",), b"/a"), (3, ("s",), b"M"), (99, t, v)]))
+    # names that are not valid names (now refused at parse time)
     for code, good in ((1, b"/a"), (2, b"a.b"), (3, b"M"), (4, b"a.E"), (6, b"a.b"), (7, b":1.1")):
         for bad in (b"", b".", b"!!", b"a..b", b"9a.b", b"/a/", b"a b", b"\xc3\xa9.x", b":1", b"a.b-", b"x" * 256, b"a." + b"b" * 254, good):
             sigc = b"o" if code == 1 else b"s"
